@@ -1,6 +1,6 @@
 """property -> rule sets (DESIGN §4)"""
 from engine import ok, bad, assumed, floor
-import r_lock, r_panic, r_errd, r_order, r_misc, r_nowrap, r_desc, r_registry, r_effects, r_value, r_ctx, r_parse, r_num, r_slice, r_term
+import r_lock, r_panic, r_errd, r_order, r_misc, r_nowrap, r_desc, r_registry, r_effects, r_value, r_ctx, r_parse, r_num, r_slice, r_term, r_token
 
 PROPS = {}
 
@@ -406,3 +406,46 @@ def c01(ctx):
     obs += robs
     obs.append(floor('LOOP', 'loops', nloops, 10, 'tokenizer scanners, parser loops and renderer loops'))
     return obs, {'analysed': {'scope_bodies': len(bodies), 'panic_sites': len(sites), 'loops': nloops, 'recursive_sccs': nscc}}
+
+
+def tok_roles(ctx):
+    if 'tr' not in ctx.cache:
+        ctx.cache['tr'] = r_token.TokRoles(ctx.prog, parse_roles(ctx))
+    return ctx.cache['tr']
+
+
+@prop('C10',
+      'TSPAN: at every construction of a token, both span fields are proved in-bounds char boundaries (SLICE domain) and the token text is the input slice over exactly the span\'s range — same values by provenance, or two reads of the scanner position with no advancing call in between; '
+      'String: input[span.start + 1 .. span.end - 1] (the characters between the quotes, a sub-slice of the input, never a built string: no escape processing); Number: the value is parsed from input[span]; text handed in as a parameter must come, together with the start, from one scanner call whose text is input[start .. position]. '
+      'SLICE: every slice bound is a char boundary (see C01). TWS: the whitespace predicate (role: the char predicate guarding the advance in the skipper that runs before the dispatching character is read), evaluated over a finite partition of char, accepts SP, TAB, CR, LF and nothing that is not Unicode white space.',
+      not_decided='classification (longest registered operator, whole-word operators, name( as function, bool keywords) and strict monotonicity of spans across a whole input: these depend on registry contents and iteration values',
+      assumptions=COMMON_ASSUME)
+def c10(ctx):
+    roles = parse_roles(ctx)
+    obs = r_parse.rule_floors(roles)
+    if any(o.status == 'violated' for o in obs):
+        return obs, {}
+    sm, sobs = slice_model(ctx)
+    obs += sobs
+    obs += r_token.rule_tspan(sm, roles)
+    obs += r_token.rule_tws(tok_roles(ctx))
+    return obs, {'analysed': {'slice_sites': len(sm.verdicts)}}
+
+
+@prop('C11',
+      'TWS: the whitespace set contains SP, TAB, CR, LF (read off the predicate\'s MIR over a finite partition of char). '
+      'WWS: in the token scanner the whitespace skipper dominates the read of the dispatching character, and the function-vs-reference decision is taken by a predicate on the next *token* obtained through the token scanner on a copy (so `f (x)` and `f(x)` agree), not by a character-level peek. '
+      'WPAREN: "(" is dispatched to a body that checks ")" and returns the inner expression node itself (the moved Ok payload of the inner parse: no wrapper node, no modified copy). '
+      'These are the three mutations the property\'s own rationale names.',
+      not_decided='the relation itself (AST equality over all re-layouts of all programs)',
+      assumptions=COMMON_ASSUME)
+def c11(ctx):
+    roles = parse_roles(ctx)
+    obs = r_parse.rule_floors(roles)
+    if any(o.status == 'violated' for o in obs):
+        return obs, {}
+    tr = tok_roles(ctx)
+    obs += r_token.rule_tws(tr)
+    obs += r_token.rule_wws(tr)
+    obs += r_token.rule_wparen(roles)
+    return obs, {}
